@@ -255,6 +255,7 @@ def check_every_address_accounted(eng, run, impl):
 
     class Rec(RuleAnalysis):
         tokens = ("OSError",)
+        inline_helpers = True  # the bind step extracted into a private helper that records into the same (namesake) list
 
         def initial(self, f):
             return [False]
@@ -578,6 +579,26 @@ def _find_slot(race, tc):
         if isinstance(n, ast.Nonlocal):
             if len(n.names) == 1:
                 return n.names[0]
+    # the slot as a field of a record shared by the attempts (`race = _ConnectionRace()` ... `if race.winner is None: race.winner = socket`):
+    # a field of a local of the outer function, bound there to an instance of a class of this module whose field defaults to None
+    from sa.analyses.base import none_test
+    for n in own_nodes(tc.node):
+        if isinstance(n, ast.If):
+            nt = none_test(n.test)
+            if nt and "." in nt[0] and nt[0].count(".") == 1:
+                base, field_ = nt[0].split(".")
+                stores = [s for s in ast.walk(n) if isinstance(s, ast.Assign) and any(dotted(t) == nt[0] for t in s.targets)]
+                binds = [a for a in own_nodes(race.node) if isinstance(a, (ast.Assign, ast.AnnAssign)) and isinstance(getattr(a, "value", None), ast.Call)
+                         and any(isinstance(t, ast.Name) and t.id == base for t in (a.targets if isinstance(a, ast.Assign) else [a.target]))]
+                if not stores or len(binds) != 1 or not isinstance(binds[0].value.func, ast.Name) or binds[0].value.args or binds[0].value.keywords:
+                    continue
+                ci = race.module.classes.get(binds[0].value.func.id)
+                cnode = getattr(ci, "node", None)
+                if cnode is None:
+                    continue
+                dflt = [s for s in cnode.body if isinstance(s, ast.AnnAssign) and isinstance(s.target, ast.Name) and s.target.id == field_]
+                if len(dflt) == 1 and isinstance(dflt[0].value, ast.Constant) and dflt[0].value.value is None:
+                    return nt[0]
     raise AnalysisError("anchor vanished: nonlocal winner slot in the racing task")
 
 
